@@ -87,6 +87,12 @@ fn has_position(e: &str) -> bool {
 
 fn plant_syntax_error(b: &[u8], pos: usize, kind: usize, f: Fmt) -> (Vec<u8>, &'static str) {
     let mut v = b.to_vec();
+    if kind == 3 {
+        // a byte no text format accepts raw: a C0 control character or an invalid UTF-8 byte
+        let stray: u8 = if f == Fmt::Msgpack { 0xc1 } else { *[0x01u8, 0xff, 0x7f, 0x1b, 0xc0].get(pos % 5).unwrap() };
+        v.insert(pos.min(v.len()), stray);
+        return (v, "insert_control_or_invalid_byte");
+    }
     match kind % 3 {
         0 => {
             v.remove(pos.min(v.len() - 1));
@@ -163,6 +169,22 @@ pub fn input_side(input: &[u8], f: Fmt, mode: &Mode, how: &str, acc: &mut Acc) {
         // reports the construct it cannot translate before it ever reaches the defect
         acc.count("input_side_unsupported_tag_met_first_skipped");
         return;
+    }
+    // libyaml's character reader (control characters, invalid UTF-8) reports a byte offset, not a
+    // line and column: it must be the offset at which such a byte really stands
+    if f == Fmt::Yaml {
+        if let Some(n) = e.rsplit_once(" at position ").and_then(|(_, t)| t.trim().parse::<usize>().ok()) {
+            if let Some(p) = crate::read::yaml::first_forbidden_offset(input) {
+                acc.count("input_side_yaml_byte_offsets_checked");
+                // control characters: exactly there; malformed UTF-8: libyaml points at the octet it
+                // objects to, which may be a trailing octet of the sequence that starts at p
+                let ok = if e.starts_with("control characters") { n == p } else { n >= p && n <= p + 3 };
+                if !ok {
+                    acc.violation(Violation { sig: "yaml: the reported byte position is not where the offending byte stands".into(), case: case(), observed: format!("{e} (the first byte the YAML character reader refuses stands at offset {p})"), expected: format!("... at position {p}") });
+                    return;
+                }
+            }
+        }
     }
     if f != Fmt::Msgpack && !has_position(e) {
         // UTF-8 validity errors of a whole slice are reported by position-less std messages
@@ -393,7 +415,7 @@ pub fn run(ctx: &Ctx) -> i32 {
             let every = if good.len() <= 200 { 1 } else { good.len() / 100 };
             let mut pos = 0;
             while pos <= good.len() {
-                for kind in 0..3 {
+                for kind in 0..4 {
                     if pos == good.len() && kind != 1 {
                         continue;
                     }
@@ -449,7 +471,7 @@ pub fn run(ctx: &Ctx) -> i32 {
             }
         }
     });
-    let rule = format!("{} generated common-model documents; (a) each spelled in one format in turn and damaged at EVERY byte position (<= 200 B; sampled above) by deleting the byte, inserting a stray structural byte, or truncating there, slice and reader alternating, confirmed malformed by the independent reader, judged for the three streaming targets; (b) one unrepresentable construct (null key / sequence key -> JSON, binary -> YAML, null -> TOML, 65..128-bit integer -> MessagePack) planted at a random path (depth <= 6) from every source that can spell it; (c) every third document: the writer fails at EVERY byte of the fault-free output (sampled above 600 B), two fault styles, slice and reader; distinct non-trivial = distinct documents", n);
+    let rule = format!("{} generated common-model documents; (a) each spelled in one format in turn and damaged at EVERY byte position (<= 200 B; sampled above) by deleting the byte, inserting a stray structural byte, inserting a control / invalid UTF-8 byte, or truncating there, slice and reader alternating, confirmed malformed by the independent reader, judged for the three streaming targets; (b) one unrepresentable construct (null key / sequence key -> JSON, binary -> YAML, null -> TOML, 65..128-bit integer -> MessagePack) planted at a random path (depth <= 6) from every source that can spell it; (c) every third document: the writer fails at EVERY byte of the fault-free output (sampled above 600 B), two fault styles, slice and reader; distinct non-trivial = distinct documents", n);
     ev::finish(
         Finish { ctx, level: "fault_enumeration", rule, assumptions: vec!["equality with the message the source crate gives when called directly is NOT demanded (it legitimately differs with the visitor and reader kind)".into(), "reference reasons come from handing the construct / the same failing writer directly to the target crate inside the harness".into()], extra: serde_json::Map::new(), exhaustive: false, min_distinct: 300, must_reach: vec![("input_side_messages_ok".into(), 5000), ("value_reason_present".into(), 1000), ("writer_reason_present".into(), 5000)] },
         acc,
